@@ -192,6 +192,10 @@ def ex_hoad(it):
     acts = {o: list(v) for o, v in it["acts"]}
     ok, out, err = (call(HOADmodel, N, acts, it["time"]) if it["pass_time"] else call(HOADmodel, N, acts))
     b = Binding("temp", list(range(N)))
+    if not ok and any(len(v) > N for v in acts.values()):
+        # a model that refuses an activity vector longer than N is within its rights (whether such a vector is admissible is
+        # open): not judged; one that accepts it must still emit nodes below N only
+        return {"fn": "HOADmodel", "not_judged": True, "ok": False, "err": err}
     return {"fn": "HOADmodel", "n": N, "orders": [o for o, _ in it["acts"]], "time": it["time"] if it["pass_time"] else 100,
             "ok": ok, "err": err, "out": b.state(out) if ok else EMPTY}
 
